@@ -159,7 +159,9 @@ fn same_table(a: &Snap, b: &Snap) -> bool {
         && a.table
             .iter()
             .zip(&b.table)
-            .all(|(x, y)| x.idx == y.idx && x.ptr == y.ptr && x.len == y.len)
+            // the bytes too: a table whose references survived but whose memory was freed or
+            // rewritten underneath them (0xDD of `talloc`) is not the same table
+            .all(|(x, y)| x.idx == y.idx && x.ptr == y.ptr && x.len == y.len && x.bytes == y.bytes)
 }
 
 fn same_content(a: &Snap, b: &Snap) -> bool {
@@ -506,6 +508,116 @@ fn learn_from_get<K: KeyT>(world: &mut World<K>, slot: usize, list: &[String], c
     }
 }
 
+/// The shadow of a slot that holds what a document says (`DE`, an accepted `DEI`)
+fn shadow_from_doc<K: KeyT>(world: &mut World<K>, new: usize, kind: Kind, doc: &DocIn, ctx: &mut Ctx<'_>) {
+    let sh = &mut world.slots[new].shadow;
+    sh.clear();
+    sh.loose = kind == Kind::Resolver;
+    match doc {
+        DocIn::List(items) => {
+            for (i, s) in items.iter().enumerate() {
+                if let Err(msg) = sh.add(i, s) {
+                    ctx.rep("C02", format!("slot {new}: accepted document: {msg}"));
+                }
+            }
+        }
+        DocIn::Map(entries) => {
+            // the parser resolves repeated strings last-wins
+            let mut last: Vec<(&str, &str)> = Vec::new();
+            for (s, raw) in entries {
+                match last.iter_mut().find(|(t, _)| *t == s.as_str()) {
+                    Some(slot) => slot.1 = raw,
+                    None => last.push((s, raw)),
+                }
+            }
+            let mut pairs: Vec<(usize, &str)> = Vec::new();
+            for (s, raw) in last {
+                match raw.parse::<u64>() {
+                    Ok(raw) if raw >= 1 => pairs.push(((raw - 1) as usize, s)),
+                    _ => ctx.rep("C14", format!("slot {new}: a document with the raw key {raw} was accepted")),
+                }
+            }
+            pairs.sort();
+            for (k, s) in pairs {
+                if let Err(msg) = sh.add(k, s) {
+                    ctx.rep("C02", format!("slot {new}: accepted document: {msg}"));
+                }
+            }
+        }
+    }
+}
+
+/// C15 for `DEI` (serde's contract: the default `deserialize_in_place` is `*place = T::deserialize(d)?`): a refused
+/// document leaves the slot as it was, an accepted one leaves what `DE` creates from it; the two agree on which
+/// documents they accept.  Also brings the shadow in line, so that `check_slot` can judge the slot afterwards.
+#[allow(clippy::too_many_arguments)]
+fn check_dei<K: KeyT>(
+    world: &mut World<K>,
+    slot: usize,
+    kind: Kind,
+    doc: &DocIn,
+    res: Option<bool>,
+    before: &SnapR,
+    reference: Option<&Snap>,
+    now: &SnapR,
+    ctx: &mut Ctx<'_>,
+) {
+    // monitor-only cases keep no shadow of their own: there it is what the object itself showed before the call
+    let light = world.id.starts_with("MO-");
+    match res {
+        Some(true) => {
+            shadow_from_doc(world, slot, kind, doc, ctx);
+            match (reference, now.live()) {
+                (None, _) => ctx.rep("C15", format!("slot {slot}: deserialize_in_place accepted a document that deserialize refuses")),
+                (Some(r), Some(n)) => {
+                    if r.len != n.len || !same_content(r, n) {
+                        ctx.rep("C15", format!("slot {slot}: after deserialize_in_place the table is not the one deserialize creates from the same document ({} vs {} entries)", n.table.len(), r.table.len()));
+                    }
+                    if r.audit.max_memory_usage != n.audit.max_memory_usage {
+                        ctx.rep("C15", format!("slot {slot}: after deserialize_in_place the memory limit is {}, deserialize creates an object with {}", n.audit.max_memory_usage, r.audit.max_memory_usage));
+                    }
+                }
+                (Some(_), None) => {}
+            }
+        }
+        Some(false) => {
+            if reference.is_some() {
+                ctx.rep("C15", format!("slot {slot}: deserialize_in_place refused a document that deserialize accepts"));
+            }
+            if light {
+                if let Some(b) = before.live() {
+                    let sh = &mut world.slots[slot].shadow;
+                    sh.loose = kind == Kind::Resolver;
+                    sh.rebuild_from(b);
+                }
+            }
+            if let (Some(b), Some(n)) = (before.live(), now.live()) {
+                let same = b.len == n.len
+                    && same_table(b, n)
+                    && same_block_use(b, n)
+                    && b.audit.max_memory_usage == n.audit.max_memory_usage;
+                if !same {
+                    ctx.rep(
+                        "C15",
+                        format!(
+                            "slot {slot}: a refused document changed the object (len {} -> {}, {} -> {} table entries, {} -> {} blocks)",
+                            b.len, n.len, b.table.len(), n.table.len(), b.audit.blocks.len(), n.audit.blocks.len()
+                        ),
+                    );
+                }
+            }
+        }
+        None => {
+            // a panic leaves a valid object with unspecified content: it must at least be consistent with itself
+            if let Some(n) = now.live() {
+                let sh = &mut world.slots[slot].shadow;
+                sh.loose = kind == Kind::Resolver;
+                sh.rebuild_from(n);
+            }
+        }
+    }
+}
+
 fn after_op_inner<K: KeyT>(world: &mut World<K>, ev: &Ev, snaps: Option<&[SnapR]>, ctx: &mut Ctx<'_>) {
     static DEAD: SnapR = SnapR::Dead;
     // the state of slot i after the op (`slot.last` is the state before it)
@@ -765,40 +877,19 @@ fn after_op_inner<K: KeyT>(world: &mut World<K>, ev: &Ev, snaps: Option<&[SnapR]
         Ev::De { new, kind, doc } => {
             if let Some(new) = new {
                 touched.push(*new);
-                let sh = &mut world.slots[*new].shadow;
-                sh.loose = *kind == Kind::Resolver;
-                match doc {
-                    DocIn::List(items) => {
-                        for (i, s) in items.iter().enumerate() {
-                            if let Err(msg) = sh.add(i, s) {
-                                ctx.rep("C02", format!("slot {new}: accepted document: {msg}"));
-                            }
-                        }
-                    }
-                    DocIn::Map(entries) => {
-                        // the parser resolves repeated strings last-wins
-                        let mut last: Vec<(&str, &str)> = Vec::new();
-                        for (s, raw) in entries {
-                            match last.iter_mut().find(|(t, _)| *t == s.as_str()) {
-                                Some(slot) => slot.1 = raw,
-                                None => last.push((s, raw)),
-                            }
-                        }
-                        let mut pairs: Vec<(usize, &str)> = Vec::new();
-                        for (s, raw) in last {
-                            match raw.parse::<u64>() {
-                                Ok(raw) if raw >= 1 => pairs.push(((raw - 1) as usize, s)),
-                                _ => ctx.rep("C14", format!("slot {new}: a document with the raw key {raw} was accepted")),
-                            }
-                        }
-                        pairs.sort();
-                        for (k, s) in pairs {
-                            if let Err(msg) = sh.add(k, s) {
-                                ctx.rep("C02", format!("slot {new}: accepted document: {msg}"));
-                            }
-                        }
-                    }
-                }
+                shadow_from_doc(world, *new, *kind, doc, ctx);
+            }
+        }
+
+        Ev::DeInPlace { slot, kind, doc, res, before, reference } => {
+            let slot = *slot;
+            touched.push(slot);
+            check_dei(world, slot, *kind, doc, *res, before, reference.as_ref(), after(slot), ctx);
+        }
+
+        Ev::Leaked { slots } => {
+            for slot in slots {
+                world.slots[*slot].shadow.clear();
             }
         }
 
@@ -896,4 +987,29 @@ pub fn at_end<K: KeyT>(world: &mut World<K>, snaps: &[SnapR], sink: &mut MonSink
         opno: "end",
     };
     check_block_sharing(&mut ctx, snaps);
+}
+
+/// The end-of-case check of some slots of a monitor-only case (those a `DEI` touched).  `rebuild`: other ops changed
+/// the slots since, so the shadow is first brought to what the object itself shows (self-consistency only).
+pub fn at_end_slots<K: KeyT>(world: &mut World<K>, slots: &[usize], rebuild: bool, sink: &mut MonSink) {
+    let id = world.id.clone();
+    let snaps = world.snap_all();
+    for &i in slots {
+        let outcome = catch_unwind(AssertUnwindSafe(|| {
+            let mut ctx = Ctx { sink: &mut *sink, id: &id, opno: "end" };
+            if rebuild {
+                if let Some(snap) = snaps[i].live() {
+                    let sh = &mut world.slots[i].shadow;
+                    sh.loose = snap.kind == Kind::Resolver;
+                    sh.rebuild_from(snap);
+                }
+            }
+            check_slot(world, i, &snaps[i], &mut ctx);
+        }));
+        if let Err(payload) = outcome {
+            sink.report(&id, "end", "MON", &format!("internal: monitor panicked: {}", panic_message(payload)));
+        }
+    }
+    let mut ctx = Ctx { sink: &mut *sink, id: &id, opno: "end" };
+    check_block_sharing(&mut ctx, &snaps);
 }
